@@ -11,7 +11,9 @@
 
 #include <atomic>
 #include <cassert>
+#include <cstddef>
 #include <cstdint>
+#include <cstring>
 #include <memory>
 
 namespace xenium {
@@ -131,9 +133,14 @@ struct seqlock {
   void update(Func func);
 
 private:
-  using storage_t = typename std::aligned_storage<sizeof(T), alignof(T)>::type;
   using sequence_t = uintptr_t;
   using copy_t = uintptr_t;
+  // the data is copied word by word using atomic<copy_t>, so the storage has to consist of
+  // a whole number of properly aligned words - even if sizeof(T) is not a multiple of the word size.
+  static constexpr std::size_t words = (sizeof(T) + sizeof(copy_t) - 1) / sizeof(copy_t);
+  using storage_t = typename std::aligned_storage<words * sizeof(copy_t),
+                                                  (alignof(T) > alignof(std::atomic<copy_t>) ? alignof(T)
+                                                                                             : alignof(std::atomic<copy_t>))>::type;
 
   [[nodiscard]] bool is_write_pending(sequence_t seq) const { return (seq & 1) != 0; }
 
@@ -228,12 +235,12 @@ void seqlock<T, Policies...>::release_lock(sequence_t seq) {
 
 template <class T, class... Policies>
 void seqlock<T, Policies...>::read_data(T& dest, const storage_t& src) const {
-  auto* pdest = reinterpret_cast<copy_t*>(&dest);
-  auto* pend = pdest + (sizeof(T) / sizeof(copy_t));
+  copy_t buffer[words];
   const auto* psrc = reinterpret_cast<const std::atomic<copy_t>*>(&src);
-  for (; pdest != pend; ++psrc, ++pdest) {
-    *pdest = psrc->load(std::memory_order_relaxed);
+  for (std::size_t i = 0; i < words; ++i) {
+    buffer[i] = psrc[i].load(std::memory_order_relaxed);
   }
+  std::memcpy(&dest, buffer, sizeof(T));
   // (6) - this acquire-fence synchronizes-with the release-fence (7)
   XENIUM_THREAD_FENCE(std::memory_order_acquire);
 
@@ -250,11 +257,11 @@ void seqlock<T, Policies...>::store_data(const T& src, storage_t& dest) {
   // (7) - this release-fence synchronizes-with the acquire-fence (6)
   XENIUM_THREAD_FENCE(std::memory_order_release);
 
-  const auto* psrc = reinterpret_cast<const copy_t*>(&src);
-  const auto* pend = psrc + (sizeof(T) / sizeof(copy_t));
+  copy_t buffer[words] = {};
+  std::memcpy(buffer, &src, sizeof(T));
   auto* pdest = reinterpret_cast<std::atomic<copy_t>*>(&dest);
-  for (; psrc != pend; ++psrc, ++pdest) {
-    pdest->store(*psrc, std::memory_order_relaxed);
+  for (std::size_t i = 0; i < words; ++i) {
+    pdest[i].store(buffer[i], std::memory_order_relaxed);
   }
 }
 
